@@ -186,7 +186,7 @@ func Dispatch(c *restful.Container, r Req) (o Outcome) {
 			Invocations: cp.invocations, Code: rec.Code}
 	}
 	o = Outcome{Kind: "err", Code: rec.Code}
-	if vs, ok := rec.Header()["Allow"]; ok {
+	if vs, ok := rec.Result().Header["Allow"]; ok { // the headers as sent, not the live map
 		o.Allow = AllowSet(strings.Join(vs, ","))
 	}
 	return o
